@@ -95,10 +95,19 @@ pub fn run(op: &str, a: &[&str]) -> Option<String> {
                     if wire[..10] != b[..10] || wire[12..hl] != b[12..hl] {
                         return Some(format!("reencode-differs({})", to_hex(&wire)));
                     }
+                    // `write` fills the checksum in itself, whatever the struct holds (here: the input's bytes)
+                    let mut w1: Vec<u8> = Vec::new();
+                    let w1r = hdr.write(&mut w1).map(|_| u16::from_be_bytes([w1[10], w1[11]]));
+                    let mut w2: Vec<u8> = Vec::new();
+                    let w2r = IpHeaders::Ipv4(hdr.clone(), Default::default())
+                        .write(&mut w2)
+                        .map(|_| u16::from_be_bytes([w2[10], w2[11]]));
                     same(&[
                         ("struct", format!("ok({})", hdr.calc_header_checksum())),
                         ("slice", r16(via_slice)),
                         ("to_bytes", format!("ok({})", u16::from_be_bytes([wire[10], wire[11]]))),
+                        ("write", r16(w1r)),
+                        ("ip_headers_write", r16(w2r)),
                     ])
                 }
             }
